@@ -923,6 +923,9 @@ func (e *Exec) deliver(bi, ti int, rec *blockRecord, h int64) {
 	}
 	if !pred.NoClaim && !pred.MustReject && pred.AnteOK && stage == "pre" {
 		e.res.Stats.Probe("unexpected_reject:" + spec.Kind)
+		if os.Getenv("VERIF_DEBUG") != "" {
+			fmt.Fprintf(os.Stderr, "DEBUG unexpected reject: %+v code=%d cs=%s log=%.200s\n", spec, resp0.Code, resp0.Codespace, resp0.Log)
+		}
 	}
 	if modelLive && pred.NoClaim && stage != "pre" {
 		// mutated bytes that the application accepted: the model cannot follow
